@@ -330,11 +330,14 @@ class Ctx:
         if count:
             self.ev += run.ev
             if count_nt:
+                # counters, distinct sets and distinct_nontrivial describe the PRIMARY flavour of each workload;
+                # the same workload repeated under another build flavour adds evaluations, not new cases
                 self.nt += run.nt
-            for k, v in run.stats.items():
-                self.stats[k] = self.stats.get(k, 0) + v
-            for k, v in run.sets.items():
-                self.sets[k] = self.sets.get(k, 0) + v
+                self.ev_primary = getattr(self, "ev_primary", 0) + run.ev
+                for k, v in run.stats.items():
+                    self.stats[k] = self.stats.get(k, 0) + v
+                for k, v in run.sets.items():
+                    self.sets[k] = self.sets.get(k, 0) + v
             for k, v in run.maxs.items():
                 self.maxs[k] = max(self.maxs.get(k, 0), v)
             for s in run.samples:
@@ -437,6 +440,7 @@ class Ctx:
         cov = {"evaluations": int(self.ev), "distinct_nontrivial": int(self.nt), "rule": rule,
                "samples": self.samples[:10] or ["(none)"],
                "counters": self.stats, "distinct_sets": self.sets, "maxima": self.maxs,
+               "evaluations_primary_flavour": int(getattr(self, "ev_primary", 0)),
                "shards": self.shards[:200], "sanitizer_report_blocks": self.san_reports,
                "builds": {"total": getattr(self, "total_builds", 0), "from_cache": getattr(self, "cached_builds", 0),
                           "compile_cpu_s": getattr(self, "compile_secs", 0)},
